@@ -315,6 +315,10 @@ def run(ctx):
             ctx.ob("R-DEG", "C15.5", f_, "an exponential of a quantity that moves with a likelihood offset is taken in extended precision (dtype=np.longdouble)", wide_, f"`{src(c_)[:70]}` (shift degree {d_})" + ("" if wide_ else ": overflows to inf above log Z ~ 709 and underflows to 0 below ~ -745 in float64"), node=c_)
     ctx.require(n_exp_ >= 2, f"only {n_exp_} absolute-scale exponentials found in _INSIntegralState (compute_uncertainty expected)")
     ctx.floor("C15.5", 2)
+    # the `ess` criterion equals its standard definition: every ESS implementation (overrides of the state's property
+    # included) is the log-space Kish form - shared with C16.3
+    from .C16 import ess_rule as _ess_rule
+    _ess_rule(ctx, "C15.4")
     ctx.floor("C15.1", 10)
     ctx.floor("C15.2", 5)
     ctx.floor("C15.3", 10)
